@@ -61,6 +61,9 @@ def gen(rng, tier):
             group.pop()
         group_size -= 1
     return {"recipe": recipe, "group": group, "extras": extras, "resubmit": resubmit, "foreign_seen": rng.random() < 0.3,
+            # (a real lock -- from_array(lock=True) -- would really block a pre-empted holder's rival)
+            "preempt_seed": rng.getrandbits(32) if (rng.random() < 0.5 and not any(
+                s_["op"] == "from_array" and s_["args"].get("lock") is True for s_ in recipe["steps"])) else None,
             "optimize_graph": rng.random() < 0.85, "exec_seeds": [rng.getrandbits(32) for _ in range(2 if tier == "quick" else 4)],
             "max_perms": 24}
 
@@ -146,6 +149,49 @@ def execute_records(graph, wanted, rng, stats):
     return values
 
 
+def _preempt_records(graph, members, ref, seed, stats, proto, order_names):
+    """Execute the union of records with 2-3 records in flight (baton-passed threads, line-granular
+    pre-emption inside dask_array) and compare every output block with the dask graph's value."""
+    from dask._task_spec import Task
+
+    from ..preempt import PreemptSim
+
+    def runner(key, func, args, kwargs, deps):
+        # one record = one task whose dependencies are the record's DECLARED deps; its arguments are
+        # resolved exactly as in the one-at-a-time executor (lists/tuples/dict values, TaskRef slots)
+        deps = sorted(set(deps))
+
+        def run(*depvals):
+            values = dict(zip(deps, depvals))
+            declared = set(deps)
+            return func(*resolve(args, values, declared, key), **resolve(kwargs or {}, values, declared, key))
+
+        run.__name__ = getattr(func, "__name__", "record")
+        return Task(key, run, *[TaskRef(d) for d in deps])
+
+    g = {k: runner(k, func, args, kwargs, deps) for k, (_, func, args, kwargs, deps) in graph.items()}
+    wanted = [k for name, x in members for k in ref[name]]
+    sim = PreemptSim(random.Random(seed), inflight=random.Random(seed).choice([2, 3]), yield_p=0.4, monitor_deps=False,
+                     prop=ID, stats=stats)
+    stats["fault.preempt_runs"] = stats.get("fault.preempt_runs", 0) + 1
+    try:
+        vals = sim.run(g, wanted)
+    except Violation:
+        raise
+    except HarnessError:
+        raise
+    except Exception as e:  # noqa: BLE001
+        raise Violation(ID, "records-execution-raises",
+                        f"{proto} walk {order_names}: executing the records with {sim.inflight} records in flight raised "
+                        f"{type(e).__name__}: {str(e)[:300]} while one at a time they compute")
+    for (name, x), k, got in zip([(n_, x_) for n_, x_ in members for _ in ref[n_]], wanted, vals):
+        r = same_value(got, ref[name][k])
+        if r:
+            raise Violation(ID, "records-value-differs-concurrently",
+                            f"{proto} walk {order_names}: with {sim.inflight} records in flight block {k} of {name} differs "
+                            f"from the dask graph's value (one at a time it agrees): {r}")
+
+
 def execute(case, stats, log):
     import dask
 
@@ -191,6 +237,7 @@ def execute(case, stats, log):
         except Exception as e:  # noqa: BLE001
             raise Invalid(f"in-place step rejected: {type(e).__name__}: {str(e)[:200]}")
         stats["fault.inplace_between_submissions"] = 1
+    preempted = [False]
     og = case.get("optimize_graph", True)
     # reference block values from the dask graph, one collection at a time
     ref = {}
@@ -303,6 +350,11 @@ def execute(case, stats, log):
                                     raise Violation(ID, "output-keys-wrong",
                                                     f"{proto} walk {order_names}: output key {ko} of {name} holds another value "
                                                     f"than block {kd} of the dask graph: {r}")
+                # the consumer is a multi-threaded worker pool: 2-3 records in flight, pre-empted at Python
+                # lines inside dask_array (records of one fused layer share a func object)
+                if case.get("preempt_seed") is not None and not preempted[0] and len(first) <= 80:
+                    preempted[0] = True
+                    _preempt_records(first, members, ref, case["preempt_seed"], stats, proto, order_names)
                 log.append([proto, order_names, len(records), dup])
     stats["probe.groups_gt1"] = 1 if len(members) > 1 else 0
 
